@@ -273,8 +273,11 @@ def gen_sami(rng, n=None, nlangs=None):
         k = rng.randrange(1, len(body))
         body[k] = body[k].replace("</P>", rng.choice(["&#1114112;", "&#xFFFFFFFF;", "&#0;"]) + "</P>", 1)   # character reference out of range
     doc = head + "\n".join(body) + tail
-    if rng.random() < 0.04:
-        doc = doc.replace("color:", "color: #zz", 1)
+    if rng.random() < 0.08 and "color:" in doc:
+        # an invalid colour in a randomly chosen rule (often not the first: the parser has stored earlier rules by then)
+        idx = [i for i in range(len(doc)) if doc.startswith("color:", i)]
+        i = rng.choice(idx)
+        doc = doc[:i] + "color: " + rng.choice(["#zz", "ffffff", "rgb(1,2)"]) + ";" + doc[i + 6:]
     return doc
 
 
